@@ -8,6 +8,7 @@ CONSTANTS
   Routes = {"inst"}
   Layouts = {"flat"}
   Slim = FALSE
+  Spells = {"same"}
   HistKinds = {}
   MaxLookups = 0
 INVARIANT LayeringFollowsDocs
